@@ -25,6 +25,9 @@ Record obs := {
   ob_hung : bool;       (* the run never came to rest (real-time watchdog): only the calls, the starts,
                            JobExists and ListJobs were observed, the reuse of the name was not tried *)
   ob_running : N;       (* executions of jobFunc in progress at sc_end *)
+  ob_dup : option bool; (* None: no second ScheduleJob of the name was accepted during the script;
+                           Some b: one was, and JobExists(name) = b at sc_end while that job is pending
+                           (scripts never touch the table after such a call) *)
   ob_count : N          (* repetitions that showed this outcome *)
 }.
 
@@ -54,6 +57,10 @@ Definition obs_match (ts : list tstate) (ob : obs) : bool :=
   existsb (fun t => (if ob_hung ob then hung_match (ob_out ob) (outcome_of t) else outcome_match (ob_out ob) (outcome_of t))
                     && (running (t_core t) =? ob_running ob)) ts.
 
+(* a re-scheduled job holds its name until it is claimed: the goroutine of the earlier job of that
+   name removes the table entry only while it still refers to its own job *)
+Definition dup_ok (ob : obs) : bool := match ob_dup ob with Some false => false | _ => true end.
+
 Definition tout_eqb (a b : tout) : bool :=
   match a, b with
   | TCode x, TCode y => code_eqb x y
@@ -82,7 +89,7 @@ Definition agree (c : case) : bool :=
   match c_body c with
   | Timed sc os =>
       let ts := finals sc in
-      match os with [] => false | _ => forallb (obs_match ts) os end
+      match os with [] => false | _ => forallb (fun ob => obs_match ts ob && dup_ok ob) os end
   | Tabled ops outs runs =>
       let '(s, outs') := tb_run tb_init ops in
       list_eqb tout_eqb outs outs' && list_eqb (prod_eqb N.eqb N.eqb) runs (tb_final_runs s)
@@ -218,8 +225,11 @@ Definition P_periodic (sc : script) (ob : obs) : bool :=
   && name_ok ob
   && early_calls_ok sc o && dup_codes_ok sc o.
 
+(* "a finished job's name can be scheduled again": the job accepted under the name IS scheduled --
+   it is in the table (visible to JobExists, RunJob, CancelJob and to the duplicate check) as long as
+   nothing claims it *)
 Definition P_timed (sc : script) (ob : obs) : bool :=
-  match sc_kind sc with OneOff => P_oneoff sc ob | Periodic => P_periodic sc ob end.
+  dup_ok ob && match sc_kind sc with OneOff => P_oneoff sc ob | Periodic => P_periodic sc ob end.
 
 (* the table of names, as a specification over the set of live names: [live] maps a name to the
    (id, periodic?) of the accepted job that holds it *)
